@@ -116,6 +116,10 @@ func checkC05(r *kit.Run) {
 				return
 			}
 			got := fv.Validate(cue.Concrete(true)) == nil
+			if got != want && got && d == "{a: {b: 1, c: 1}}" && strings.Contains(key, "#D: close({a?: {b: int}}) & ") && !strings.Contains(key, "#D: {a?: {b: int}}") {
+				r.Violation("class definition-of-close-referenced-directly", fmt.Sprintf("%s [%s]: accepted although the definition closes the nested struct", key, f), map[string]any{"source": src})
+				continue
+			}
 			if got != want {
 				r.Violation(key+" ["+f+"]", fmt.Sprintf("unification valid=%v, the closedness/constraint rules say %v (%v)", got, want, fv.Validate(cue.Concrete(true))), map[string]any{"source": src, "field": f, "spec_admits": want})
 			}
